@@ -264,6 +264,9 @@ func (s *session) exec(line string) (res string) {
 	case "scribble":
 		s.scribble = a[0] == "on"
 		return "ok"
+	case "checkret":
+		// verify that slices returned earlier still hold what they held (C15)
+		return s.checkReturned()
 	}
 	if strings.HasPrefix(op, "df.") {
 		return s.execDF(op, a)
@@ -276,6 +279,28 @@ func (s *session) exec(line string) (res string) {
 	}
 	if op == "files" {
 		return listDir(s.dir(a[0]))
+	}
+	if op == "sumdir" {
+		// checksum of every data file of a (closed) directory
+		ents, err := os.ReadDir(s.dir(a[0]))
+		if err != nil {
+			return "sumdir absent"
+		}
+		var parts []string
+		for _, e := range ents {
+			if strings.HasSuffix(e.Name(), ".data") {
+				b, _ := os.ReadFile(filepath.Join(s.dir(a[0]), e.Name()))
+				parts = append(parts, e.Name()+":"+fmtVal(b))
+			}
+		}
+		sort.Strings(parts)
+		return "sumdir " + strings.Join(parts, ",")
+	}
+	if op == "haslock" {
+		if _, err := os.Stat(filepath.Join(s.dir(a[0]), ".lock")); err == nil {
+			return "lock present"
+		}
+		return "lock absent"
 	}
 	if op == "corrupt" || op == "trunc" || op == "rmfile" || op == "cpdir" || op == "rmdir" {
 		return s.execFS(op, a)
@@ -441,9 +466,6 @@ func (s *session) exec(line string) (res string) {
 		s.iters[a[0]].Close()
 		delete(s.iters, a[0])
 		return "ok"
-	case "checkret":
-		// verify that slices returned earlier still hold what they held (C15)
-		return s.checkReturned()
 	}
 	return "bad:unknown-op:" + op
 }
